@@ -2,6 +2,7 @@
 import numpy as np
 from core import OracleResult
 import impl, gens
+from layers.pointwise import layer_pointwise
 from layers.kern import layer_dt
 
 MODULE = 'Flowdyn.Props.C18'
@@ -20,7 +21,7 @@ LEVEL_NOTE = "formula, positivity, bilinearity proved; the Jacobian matrices are
 
 
 def layers(ctx):
-    return [layer_dt]
+    return [layer_dt, layer_pointwise]
 
 
 def num_jac_radius(flux, U, eps=1e-6):
